@@ -231,6 +231,8 @@ pub enum HOp {
     GuardClear,
     /// deserialise the context's own JSON through a guard over a cleared context
     GuardRoundTrip,
+    /// clear, put state into a matcher while no field has a value, clear again
+    ClearInsertClear { list: usize },
 }
 
 fn hist_values(t: &Ty) -> Vec<V> {
@@ -266,6 +268,11 @@ fn hist_ops(u: &Uni) -> Vec<HOp> {
         }
     }
     v.extend([HOp::GuardClear, HOp::GuardRoundTrip]);
+    for (idx, (_, k)) in u.lists.iter().enumerate() {
+        if *k == ListKind::Set {
+            v.push(HOp::ClearInsertClear { list: idx });
+        }
+    }
     v
 }
 
@@ -350,6 +357,27 @@ fn hstep(w: &HWorld, ctx: ExecutionContext<'static>, st: &mut HState, op: &HOp) 
                 let sm = (m.as_any_mut() as &mut dyn std::any::Any).downcast_mut::<SetMatcher>().ok_or("matcher for this type is not the one registered for it")?;
                 sm.sets.entry(name.clone()).or_default().insert(v);
             }
+            Ok(ctx)
+        }
+        HOp::ClearInsertClear { list } => {
+            st.sets.clear();
+            st.i = None;
+            ctx.clear();
+            {
+                // no field holds a value now; the matcher gets state all the same
+                let (t, _) = &w.uni.lists[*list];
+                let l = w.scheme.get_list(&t.to_engine()).ok_or("list not registered")?;
+                let m = ctx.get_list_matcher_mut(l);
+                let sm = (m.as_any_mut() as &mut dyn std::any::Any).downcast_mut::<SetMatcher>().ok_or("matcher for this type is not the one registered for it")?;
+                for name in ["a", "b.c"] {
+                    for v in hist_values(t) {
+                        sm.sets.entry(name.to_string()).or_default().insert(v);
+                    }
+                }
+            }
+            ctx.clear();
+            ctx.set_field_value(w.scheme.get_field("s").unwrap(), &b"a"[..]).map_err(|e| e.to_string())?;
+            ctx.set_field_value(w.scheme.get_field("ip").unwrap(), "::1".parse::<std::net::IpAddr>().unwrap()).map_err(|e| e.to_string())?;
             Ok(ctx)
         }
         HOp::GuardClear => {
